@@ -115,8 +115,24 @@ func (e *fnEnc) instr(c *blockCtx, in ssa.Instruction) {
 	case *ssa.Next:
 		e.next(c, in)
 	case *ssa.Panic:
-		if !e.mayPanic {
-			e.obligation("panic", e.ordinalName("panic", in), c.reach, tFalse, "explicit panic must be unreachable", e.posOf(in), false)
+		// "effect panic#k requires E": the k-th explicit panic (source order) is allowed,
+		// but only in states where E holds (e.g. the recover protocol's flag is set)
+		name := e.ordinalName("panic", in) // "k"
+		guarded := false
+		for _, cl := range e.ctr.Get("effect") {
+			f := strings.SplitN(cl.Text, " ", 3)
+			if len(f) == 3 && f[1] == "requires" && (f[0] == "panic#"+name || f[0] == "panic#*") {
+				ex, err := parseExpr(f[2])
+				if err != nil {
+					e.fail("effect clause: %v", err)
+				}
+				env := e.envAt(c.b, e.curIdx, c.st)
+				e.obligation("effect", "panic#"+name, c.reach, e.evalBool(ex, env), f[2], e.posOf(in), false)
+				guarded = true
+			}
+		}
+		if !e.mayPanic && !guarded {
+			e.obligation("panic", name, c.reach, tFalse, "explicit panic must be unreachable", e.posOf(in), false)
 		}
 		c.dead = true
 	case *ssa.Return:
